@@ -139,7 +139,7 @@ def transfer(prog, counting=True):
     ov = dict(l1.decoder_overrides())
     ov[l1.DEC + 'type_of'] = type_of_prim
     ov.update(stack_prims())
-    m = Machine(prog, prims=prims.P, overrides=ov, max_configs=20000, max_steps=2000000)
+    m = Machine(prog, prims=prims.P, overrides=ov, max_configs=6000, max_steps=800000)
     m.cuts = set(heads)
     st = State()
     args = [m.make_value(st, body['locals'][1], 'self')]
@@ -502,8 +502,9 @@ def run(ctx):
                          'stack: every top-run pattern over {0, >=1} up to three frames, on the bottom or above a None, with and without a None on top) one iteration on every head class '
                          'preserves "bottom run exact, no run over-counted, same number of open indefinite containers", and the loop is left exactly when nothing is outstanding')
     from . import c06_sim
-    ka = c06_sim.sim(ctx, pa, 'alloc', True)
-    kn = c06_sim.sim(ctx, pn, 'no-alloc', False)
+    # a build whose loop body cannot even be tabulated (reported above) is not simulated shape by shape as well
+    ka = c06_sim.sim(ctx, pa, 'alloc', True) if a_rows else 0
+    kn = c06_sim.sim(ctx, pn, 'no-alloc', False) if n_rows else 0
     ctx.floor('T-SKIP.sim', 'alloc rows', ka, 2500)
     ctx.floor('T-SKIP.sim', 'no-alloc rows', kn, 170)
     return ('skip(): one loop iteration interpreted from arbitrary counters in both builds (consumption, refusals, truncation, twin agreement), and from every state shape '
